@@ -673,7 +673,7 @@ impl Check for FileSinkCheck {
         "fault_enumeration"
     }
     fn rule(&self) -> String {
-        "enumerated part: modes {Create, Overwrite, Append} x initial states {absent, empty, non-empty (12 bytes), non-empty (13 bytes: not a whole number of samples), directory, missing parent directory} x {FileSink<u8>, NoCopyFileSink, FileSink<Float>} = 54 cells against the documented truth table (create fails iff the file exists; overwrite leaves exactly the new data; append keeps the old content and adds, creating the file if absent; directories and missing parents are errors). \
+        "enumerated part: modes {Create, Overwrite, Append} x initial states {absent, empty, non-empty (12 bytes), non-empty (13 bytes: not a whole number of samples), directory, missing parent directory} x {FileSink<u8>, NoCopyFileSink, FileSink<Float>} = 54 cells against the documented truth table (create fails iff the file exists; overwrite leaves exactly the new data; append keeps the old content (also what another writer appended after the sink was opened) and adds, creating the file if absent; directories and missing parents are errors). \
          seeded part: a child process (re-exec of the simulator) streams seeded data through the sink under a seeded feed schedule (4-8 KiB streams; one run in 30 a default-size stream fed more than 1 MiB); the fault plan kills it at the N-th write() on the sink's file after a torn length k (every write index and torn-length class is reachable), or injects short writes / one EINTR without a crash. After each work() the child records how many samples were consumed (acknowledged). Parent oracle: the file is a prefix of pre-existing content + serialised stream and holds at least the acknowledged samples; without a crash it is complete. \
          non-trivial = the child was killed inside a write that followed at least one acknowledged work(); distinct = (mode, sink, write index, torn length, data size)".into()
     }
@@ -727,6 +727,19 @@ fn mode_cell(cell: usize, ctx: &mut RunCtx) -> RunResult {
         ctx.sample = Some(json!({"cell": desc}));
     }
     let solo = Solo::new();
+    // Append on the 12-byte file: somebody else appends to the file after the
+    // sink was opened and before it writes (a second sink on a shared log,
+    // another process). What is in the file when the sink writes is existing
+    // content and stays; the sink's data goes after it.
+    let late_append = mode == 2 && state == 2;
+    let late = |path: &std::path::Path| {
+        if late_append {
+            use std::io::Write;
+            if let Ok(mut f) = std::fs::OpenOptions::new().append(true).open(path) {
+                let _ = f.write_all(b"+LATE");
+            }
+        }
+    };
     let new_data: Vec<u8> = vec![1, 2, 3, 4, 5, 6, 7, 8];
     let (ctor_ok, err): (bool, String) = solo.with(|| {
         if nocopy {
@@ -735,6 +748,7 @@ fn mode_cell(cell: usize, ctx: &mut RunCtx) -> RunResult {
                 Err(p) => (false, format!("PANIC {}", p.msg)),
                 Ok(Err(e)) => (false, e.to_string()),
                 Ok(Ok(mut b)) => {
+                    late(&path);
                     w.push("abc".to_string(), &[]);
                     w.push("de".to_string(), &[]);
                     for _ in 0..4 {
@@ -751,6 +765,7 @@ fn mode_cell(cell: usize, ctx: &mut RunCtx) -> RunResult {
                 Err(p) => (false, format!("PANIC {}", p.msg)),
                 Ok(Err(e)) => (false, e.to_string()),
                 Ok(Ok(mut b)) => {
+                    late(&path);
                     let mut wb = w.write_buf().unwrap();
                     wb.slice()[..2].copy_from_slice(&[1.0f32, -2.5]);
                     wb.produce(2, &[]);
@@ -768,6 +783,7 @@ fn mode_cell(cell: usize, ctx: &mut RunCtx) -> RunResult {
                 Err(p) => (false, format!("PANIC {}", p.msg)),
                 Ok(Err(e)) => (false, e.to_string()),
                 Ok(Ok(mut b)) => {
+                    late(&path);
                     let mut wb = w.write_buf().unwrap();
                     wb.slice()[..8].copy_from_slice(&new_data);
                     wb.produce(8, &[]);
@@ -810,7 +826,13 @@ fn mode_cell(cell: usize, ctx: &mut RunCtx) -> RunResult {
         return Err(Violation::new(format!("C17:mode-should-succeed:{}", ["create", "overwrite", "append"][mode]), format!("{desc}: failed with: {err}")));
     }
     let now = std::fs::read(&path).unwrap_or_default();
-    let want: Vec<u8> = if mode == 2 { [pre.clone(), written].concat() } else { written };
+    let want: Vec<u8> = if late_append {
+        [pre.clone(), b"+LATE".to_vec(), written].concat()
+    } else if mode == 2 {
+        [pre.clone(), written].concat()
+    } else {
+        written
+    };
     if now != want {
         return Err(Violation::new(format!("C17:mode-content:{}", ["create", "overwrite", "append"][mode]), format!("{desc}: file holds {now:?}, expected {want:?}")));
     }
